@@ -31,7 +31,7 @@ class AMachine(Machine):
     gcc_pool = 6
     gcc_fresh = 0.5            # share of the gcc runs that get a program of their own (with long blocks)
     gcc_share = 0.12           # share of runs on the gcc backend
-    features = ["mem", "straddle", "stack", "call", "loop", "branch", "rep", "indirect", "multi", "exc"]
+    features = ["mem", "straddle", "stack", "call", "loop", "branch", "rep", "indirect", "multi", "exc", "exotic"]
     actors = []
     quick_runs = 420
     thorough_runs = 7000
@@ -58,6 +58,8 @@ class AMachine(Machine):
     # ---- generation ---------------------------------------------------------
     arm_share = 0.2            # share of runs with an ARM (arml) guest; the rest is x86_32
     mips_guest_share = 0.0     # share of (python-backend) runs with a MIPS guest
+    a64_share = 0.1            # share of runs with an AArch64 guest
+    x64_share = 0.12           # share of runs with an x86_64 guest (64-bit registers and memory accesses)
 
     def gen_program(self, rng, steer, arch="x86_32"):
         feat = set(f for f in self.features if rng.random() < 0.6)
@@ -91,13 +93,17 @@ class AMachine(Machine):
         if backend == "gcc" and not fresh:
             # program from the per-batch pool (same seed -> same program -> warm disk cache), any block length
             prng = random.Random(derive(getattr(self, "master_seed", 0), "pool", rng.randrange(self.gcc_pool)))
-            arch = "arml" if prng.random() < self.arm_share else "x86_32"
+            r = prng.random()
+            arch = "arml" if r < self.arm_share else "x86_64" if r < self.arm_share + self.x64_share else \
+                "aarch64l" if r < self.arm_share + self.x64_share + self.a64_share else "x86_32"
             arch = self.endianness(prng, arch)
             lines, feat = self.gen_program(prng, steer, arch)
             init = a_sim.default_regs(arch, prng)
         else:
             r = rng.random()
-            arch = "arml" if r < self.arm_share else "mips32l" if r < self.arm_share + self.mips_guest_share else "x86_32"
+            arch = "arml" if r < self.arm_share else "mips32l" if r < self.arm_share + self.mips_guest_share else \
+                "x86_64" if r < self.arm_share + self.mips_guest_share + self.x64_share else \
+                "aarch64l" if r < self.arm_share + self.mips_guest_share + self.x64_share + self.a64_share else "x86_32"
             arch = self.endianness(rng, arch)
             lines, feat = self.gen_program(rng, steer, arch)
             init = a_sim.default_regs(arch, rng)
@@ -132,6 +138,14 @@ class AMachine(Machine):
             for line in cfg["program"]:
                 for tok, pages in (("[R9", (0, 1)), ("R9,", (0, 1)), ("[R10", (0,)), ("R10,", (0,)), ("[R11", (1,)), ("R11,", (1,)),
                                    ("[R8", (2,)), ("SP!", (3,))):
+                    if tok in line:
+                        for pg in pages:
+                            if pg not in used:
+                                used.append(pg)
+            return used or [0]
+        if cfg["arch"] == "aarch64l":
+            for line in cfg["program"]:
+                for tok, pages in (("[X9", (0, 1)), ("[X10", (0,)), ("[X11", (1,)), ("[X8", (2,)), ("[SP", (3,))):
                     if tok in line:
                         for pg in pages:
                             if pg not in used:
@@ -340,7 +354,7 @@ class C21(AMachine):
             "clear_jitted_blocks), stop/resume, warm/cold restart; non-trivial = reference has >=5 ticks; distinct = distinct event-log digest")
     actors = ["tuner", "restarter"]
     mips_guest_share = 0.12
-    features = ["mem", "straddle", "stack", "call", "loop", "branch", "rep", "indirect", "multi", "smc", "exc"]
+    features = ["mem", "straddle", "stack", "call", "loop", "branch", "rep", "indirect", "multi", "smc", "exc", "exotic"]
     expected_probes = ["tuner_set_options", "tuner_clear_cache", "stop_resume", "restart_warm", "restart_cold", "warm_start",
                        "runs_completed"]
 
@@ -423,10 +437,12 @@ class C22(AMachine):
             "at their stamped states")
     must_features = ["smc"]
     arm_share = 0.0            # the self-modifying cells are x86 encodings
+    x64_share = 0.0            # ... 32-bit ones (absolute disp32 addressing)
+    a64_share = 0.0
     features = ["mem", "stack", "loop", "branch"]
     actors = ["host writer", "tuner", "debugger"]
     diverge_class = "stale-code"
-    expected_probes = ["host_write_code", "host_write_data", "host_write_reload", "tuner_set_options", "runs_completed"]
+    expected_probes = ["host_write_code", "host_write_data", "host_write_reload", "host_write_tail", "tuner_set_options", "runs_completed"]
 
     def gen_actions(self, rng, cfg, steer):
         acts = []
@@ -446,6 +462,12 @@ class C22(AMachine):
             else:
                 # the debugger registers a breakpoint between a host write and the resumption
                 acts.append([cp, "bp_add", ["L", rng.randrange(16)] if rng.random() < 0.5 else rng.randrange(200), rng.randrange(3)])
+        if rng.random() < 0.5:
+            # the debugger installs a breakpoint (the translated ranges are re-registered) and, at the same control
+            # point, the host patches the last byte of the translated code
+            cp = rng.choice([rng.randint(1, 6), rng.randint(1, 25)])
+            acts.append([cp, "bp_add", ["L", rng.randrange(16)] if rng.random() < 0.5 else rng.randrange(200), rng.randrange(3)])
+            acts.append([cp, "hw", "tail", 0, [rng.getrandbits(8)]])
         # host writes followed at once by another host action at the same control point
         for a in list(acts):
             if a[1] == "hw" and rng.random() < 0.5:
@@ -483,7 +505,7 @@ class C49(AMachine):
     must_features = ["mem", "straddle"]
     # no REP: miasm runs all iterations of a REP instruction inside one IR loop, so the reference has
     # no per-iteration states to compare a mid-REP fault stop with (stated limit, see DESIGN)
-    features = ["mem", "straddle", "stack", "call", "loop", "branch", "indirect", "ro", "multi", "exc"]
+    features = ["mem", "straddle", "stack", "call", "loop", "branch", "indirect", "ro", "multi", "exc", "exotic"]
     actors = ["fault injector", "tuner"]
     gcc_share = 0.25
     gcc_fresh = 1.0
@@ -516,12 +538,12 @@ class C20(AMachine):
             "faults); each case is executed on the python and on the gcc backend, each judged against the reference and the two "
             "compared directly (final state, breakpoint hit sequence)")
     actors = ["tuner", "debugger", "fault injector"]
-    features = ["mem", "straddle", "stack", "call", "loop", "branch", "indirect", "ro", "multi", "exc"]
+    features = ["mem", "straddle", "stack", "call", "loop", "branch", "indirect", "ro", "multi", "exc", "exotic"]
     both_backends = True
     gcc_share = 1.0
     gcc_fresh = 0.7
     gcc_pool = 10
-    quick_runs = 110
+    quick_runs = 140
     thorough_runs = 2500
     expected_probes = ["both_backends_compared", "fault_stop", "bp_hit", "tuner_set_options", "runs_completed", "terminal_fault_runs",
                        "memory_breakpoint_added", "memory_breakpoint_hit", "memory_breakpoint_runs_judged"]
@@ -567,9 +589,30 @@ class C20(AMachine):
         acts.sort(key=lambda a: a[0])
         return {"cfg": cfg, "actions": acts}
 
+    ops_share = 0.3
+    EDGE = [0, 1, 2, 7, 8, 9, 15, 16, 17, 31, 32, 33, 63, 64, 0x80, 0xFF, 0x100, 0x7FFF, 0x8000, 0xFFFF, 0x7FFFFFFF, 0x80000000,
+            0x80000001, 0xFFFFFF80, 0xFFFF8000, 0xFFFFFFFF]
+
+    def gen_ops(self, rng):
+        """Operator sweep: a straight line of the less common integer instructions (shifts and rotates by register
+        counts wider than the operand, narrow operands, double shifts, bit scans, wide multiplies, conditional
+        moves) over edge-case register values, executed by both backends."""
+        arch = self.endianness(rng, rng.choice(["x86_32", "x86_32", "arml"]))
+        lines = a_sim.gen_program(arch, rng, {"exotic", "exotic_only"})
+        init = a_sim.default_regs(arch, rng)
+        for name in a_sim.scratch_regs(arch):
+            if name in init and rng.random() < 0.7:
+                init[name] = rng.choice(self.EDGE)
+        knobs = {"maxline": rng.choice([50, 50, 8, 3]), "quantum": 1, "cache_limit": 10000, "warm": False}
+        cfg = {"arch": arch, "backend": "gcc", "program": lines, "features": ["exotic", "exotic_only"], "init_regs": init,
+               "knobs": knobs, "heal": True, "mode": "ops"}
+        return {"cfg": cfg, "actions": []}
+
     def gen(self, rng, steer):
         if rng.random() < self.mips_share:
             return self.gen_mips(rng, steer)
+        if rng.random() < self.ops_share:
+            return self.gen_ops(rng)
         case = AMachine.gen(self, rng, steer)
         case["cfg"]["heal"] = rng.random() < 0.8
         case["cfg"]["mode"] = self._mode
